@@ -384,14 +384,14 @@ RunRaw(S, c) ==
     [] c.op = "copy" -> CopyDir(S, c)
     [] c.op = "chdir_home" -> ChdirHome(S, c)
 
-\* one public call: the transcription, the repair "atomic", and the ghost jo
-Run(S, c) ==
-  LET w == RunRaw(S, c)
-      s1 == IF w.raised # "" /\ "atomic" \in Fix THEN [S EXCEPT !.cwd = w.s.cwd] ELSE w.s
+\* one public call: the transcription w = RunRaw(S, c), then the repair "atomic" and the ghost jo
+Finish(S, c, w) ==
+  LET s1 == IF w.raised # "" /\ "atomic" \in Fix THEN [S EXCEPT !.cwd = w.s.cwd] ELSE w.s
       h == c.h
       s2 == IF h \in Handles /\ c.op \notin EnvOps /\ s1.pools[h].ex
             THEN [s1 EXCEPT !.pools[h].jo = (c.op = "open" /\ w.raised = "")] ELSE s1
   IN [s |-> s2, raised |-> w.raised, ret |-> w.ret]
+Run(S, c) == Finish(S, c, RunRaw(S, c))
 
 \* ------------------------------------------------------------------ ghosts for the round trip
 StoreView(S, node, st) ==
